@@ -1288,6 +1288,11 @@ pub fn cases(tier: Tier) -> Vec<Case> {
         }
         // an INTEGER value reference as a non-leading arc (X.680 32.3: DefinedValue as ObjIdComponent)
         add("oid", "OBJECT IDENTIFIER", "six INTEGER ::= 6", "{ 1 3 six 1 }".into(), Val::Oid(vec![1, 3, 6, 1]), "integer-value-reference-arc".into());
+        // the referenced value is declared with a type reached through two references, and sorts before / after `val`
+        for root in ["a-root", "z-root"] {
+            add("oid", "OBJECT IDENTIFIER", &format!("Oid2 ::= OBJECT IDENTIFIER\nOid3 ::= Oid2\n{root} Oid3 ::= {{ 1 2 }}"), format!("{{ {root} 3 }}"), Val::Oid(vec![1, 2, 3]), format!("reference-to-value-of-twice-named-oid-type|referenced-sorts-{}", if root.starts_with('a') { "first" } else { "last" }));
+            add("oid", "Oid3", &format!("Oid2 ::= OBJECT IDENTIFIER\nOid3 ::= Oid2\n{root} Oid3 ::= {{ 1 2 }}"), format!("{{ {root} 3 }}"), Val::Oid(vec![1, 2, 3]), format!("reference-to-value-of-twice-named-oid-type|same-type|referenced-sorts-{}", if root.starts_with('a') { "first" } else { "last" }));
+        }
         // name(number) arcs keep their number whatever values of that name exist (the name is only a label)
         add("oid", "OBJECT IDENTIFIER", "sub INTEGER ::= 1\nversion INTEGER ::= 9", "{ iso standard 8571 sub(0) version(2) }".into(), Val::Oid(vec![1, 0, 8571, 0, 2]), "name(number)-with-value-of-that-name".into());
         add("oid", "OBJECT IDENTIFIER", "sub OBJECT IDENTIFIER ::= { 2 5 }", "{ 1 3 sub(7) 4 }".into(), Val::Oid(vec![1, 3, 7, 4]), "name(number)-with-oid-value-of-that-name".into());
